@@ -216,7 +216,7 @@ def _suffix_chunk_case(ctx, suffixes, date_s) -> F.Outcome:
 # --------------------------------------------------------------------------
 # (b) BFS over allocation histories with restarts / fresh processes
 # --------------------------------------------------------------------------
-_EVENTS = ["a1", "a2", "a3", "restart", "newproc"]
+_EVENTS = ["a1", "a2", "a3", "restart", "newproc", "x1", "x2"]
 
 
 def _initial_contents(dates):
@@ -246,6 +246,12 @@ def _segment(zdir_s, ops, dates_iso):
         if op == "restart":
             mgr = ZIDManager(zdir)
             res.append(None)
+        elif op[0] == "x":
+            # ANOTHER process allocates on date d<k> while this process stays alive
+            r = H.run_child(_segment, zdir_s, ["a" + op[1]], dates_iso, capture=False)
+            if r.status != "ok":
+                raise H.HarnessError(f"external allocator failed: {r.exc}")
+            res.append(r.value[0])
         else:
             d = dates[int(op[1]) - 1]
             p = zdir / ".zorg" / "next_ids.json"
@@ -305,7 +311,7 @@ def _judge_history(init, hist, dates):
             continue
         age += 1
         z, before, after = o
-        d = _short(dates[int(op[1]) - 1])
+        d = _short(dates[int(op[1]) - 1])  # a<k> and x<k> both allocate on date k
         want_suffix = model.get(d, "00")
         succ = ZM.successor(want_suffix)
         if isinstance(z, str) and z.startswith("EXC"):
@@ -478,7 +484,8 @@ def run(ctx: F.Ctx):
             "allocations); (a3) for every suffix in the tier's set: ZID lexed by both "
             "generated lexers as exactly one ZID token, compiled back as a note's identity "
             "alone and behind a modify date; (b) BFS over histories of "
-            "{alloc d1, alloc d2, alloc d3, restart, newproc} from 9 initial next_ids.json "
+            "{alloc d1, alloc d2, alloc d3, restart (new manager), newproc (fresh process), x1/x2 = "
+            "another live process allocates on d1/d2 in between} from 9 initial next_ids.json "
             "contents (every carry/skip point), each history executed on a fresh real "
             "directory (newproc = forked process), states deduplicated on (persisted map, "
             "set of returned ZIDs, manager age); (c) round-robin allocation over n = 1..12 (thorough: "
